@@ -265,7 +265,8 @@ def rule_handoff(ctx, M, u):
             cl = s.arg(1)
             if cl[0] == "agg" and cl[1][0] == "closure":
                 cb = M.by_cdef.get(cl[1][1])
-                if cb is not None and any(x.callee.key == ("PollState", "set_none") for x in M.info(cb).sites):
+                if cb is not None and (any(x.callee.key == ("PollState", "set_none") for x in M.info(cb).sites) or any(
+                        variant == "None" for _, variant, _, _, _ in scan.state_sets(M.info(cb)))):
                     resets.append(s.block)
     for rb, payload in rets:
         probs = []
@@ -367,7 +368,42 @@ def rule_drop(ctx, M, u):
             r = scan.loop_item_root(i)
             return r is not None and r[2] and r[2][0][0] == "call" and r[2][0][1][1] == which and r[2][0][2][0] == scan.self_field("state") and s.arg(0) in (
                 scan.self_field("items"), scan.self_field("futures"))
-        ok = len(od) == 1 and len(cd) == 1 and from_indexes(od[0], "ready_indexes") and from_indexes(cd[0], "pending_indexes")
+        def guarded_indexed(s, pred):
+            """`for i in <all indices> { if state[i].<pred>() { X::drop(.., i) } }` (range or enumerate form)"""
+            idx = s.arg(1)
+            lp = di.body.innermost_loop(s.block)
+            if idx is None or lp is None:
+                return False
+            r = scan.loop_item_root(idx)
+            if r is None or not r[2]:
+                return False
+            it = r[2][0]
+            full = False
+            if it[0] == "agg" and it[1] == ("Range", "Range"):
+                lo, hi = it[2]
+                full = lo == ("const", 0) and (hi == ("sym", "N") or (hi[0] == "call" and hi[1][1] == "len"))
+            elif it[0] == "call" and it[1][1] == "enumerate" and it[2] and it[2][0][0] == "call" and it[2][0][1][1] in ("iter", "iter_mut") \
+                    and it[2][0][2] and it[2][0][2][0] == scan.self_field("state"):
+                full = True
+            if not full:
+                return False
+            item = ("field", ("variant", r, "Some"), 0)
+            for t, tidx, base in scan.state_tests(di, pred):
+                same = (tidx == idx and base == scan.self_field("state")) or (
+                    idx == ("field", item, 0) and t.arg(0) == ("field", item, 1))
+                if not same:
+                    continue
+                te = di.outcome_edges(t, True)
+                if te and di.guarded_by(s.block, te):
+                    ok1, _ = di.must_reach([x for _, x in te], [s.block], [lp[0]] + list(di.return_blocks))
+                    nxt = di.by_block.get(r[3])
+                    se = di.outcome_edges(nxt, "Some") if nxt else []
+                    ok2, _ = di.must_reach([x for _, x in se], [t.block], [lp[0]] + list(di.return_blocks)) if se else (False, [])
+                    if ok1 and ok2:
+                        return True
+            return False
+        ok = len(od) == 1 and len(cd) == 1 and (from_indexes(od[0], "ready_indexes") or guarded_indexed(od[0], "is_ready")) and (
+            from_indexes(cd[0], "pending_indexes") or guarded_indexed(cd[0], "is_pending"))
         ctx.check(ok, "C02.DROP", where, "outputs dropped for ready_indexes(), children dropped for pending_indexes()", site=m.drop.span,
                   sample={"out_drop": [short(s.arg(1)) for s in od], "child_drop": [short(s.arg(1)) for s in cd]})
         # the loops run to exhaustion: both drop sites inside loops whose only exit is next()==None
